@@ -200,6 +200,9 @@ pub fn optimize(code: Vec<UnOptCode>, level: u8) -> Result<(OptState, Vec<OptCod
             chk.push(now);
             if un_opt_code.get_type() == 5 {
                 now = un_opt_code.get_dot_count();
+                // a jump can bring control back to earlier commands while this
+                // stack is selected, so every selected stack needs its own slot
+                chk.push(now);
             }
         }
 
